@@ -12,7 +12,7 @@ From Coq Require Import List Bool String.
 From UV.Base Require Import Cop Res.
 From UV.Gen Require Import Tables.
 From UV.Py Require Import PyStr.
-From UV.Schemes Require Import Common Generic LegacyOpenssl.
+From UV.Schemes Require Import Common Generic LegacyOpenssl Semver SemverProofs.
 Import ListNotations.
 
 Lemma all_vclasses_complete c : In c all_vclasses.
@@ -47,7 +47,13 @@ Theorem C12_legacy_openssl_equal_versions_hash_alike :
   forall a b, leg_eq a b = true -> leg_hashkey a = leg_hashkey b.
 Proof. exact leg_eq_hash. Qed.
 
+(* semver family: == compares exactly the five fields that are hashed *)
+Theorem C12_semver_equal_versions_hash_alike :
+  forall a b, semver_eq a b = true -> semver_hasheq a b = true.
+Proof. exact semver_eq_hash. Qed.
+
 Print Assumptions C12_every_version_class_is_hashable_and_frozen.
 Print Assumptions C12_containers_hash_what_they_compare.
 Print Assumptions C12_generic_equal_versions_hash_alike.
 Print Assumptions C12_legacy_openssl_equal_versions_hash_alike.
+Print Assumptions C12_semver_equal_versions_hash_alike.
